@@ -366,7 +366,9 @@ def _tc_alternatives(ctx, f, expr, at):
                 and isinstance(test.comparators[0].value, int) and isinstance(test.ops[0], (ast.Lt, ast.LtE)):
             # a size test on something that is not the declared candidate count: it bounds nothing about the ids stored
             raise _NotAboutIds(unparse(test.left))
-        return 'unknown'
+        if isinstance(test, ast.Compare) and any(isinstance(x, ast.Attribute) and x.attr == 'nCand' for x in ast.walk(test)):
+            return 'unknown'          # a test on nCand of a shape this rule does not read
+        return None                   # a test about something else: says nothing about the ids
     if isinstance(expr, ast.Constant) and isinstance(expr.value, str):
         return [(expr.value, None)]
     if isinstance(expr, ast.IfExp):
